@@ -94,7 +94,9 @@ func sweepTargets(b []byte) []sweepTarget {
 
 // sweepBudget scales the sweep: lines per target, truncation offsets per target, scalars per
 // target whose sub-ranges are deleted.
-type sweepBudget struct{ lines, truncs, scalars, eolLines, jsonNodes, jsonRepl, affixDocMax, linePre, affixes int }
+type sweepBudget struct {
+	lines, truncs, scalars, eolLines, jsonNodes, jsonRepl, affixDocMax, linePre, affixes, crossLines, crossBases int
+}
 
 // sweepAffixes are put at the start and at the end of scalars.
 var sweepAffixes = []string{"\\", "\"", "'", "$", "${", "#", " ", "%", "\x00"}
@@ -257,6 +259,8 @@ func TestC02_linesweep(t *testing.T) {
 		affixDocMax: ev.Scale(1024, 1<<20),
 		linePre:     ev.Scale(1, 3),
 		affixes:     ev.Scale(5, len(sweepAffixes)),
+		crossLines:  ev.IntEnv("C02_SWEEP_CROSSLINES", ev.Scale(24, 400)),
+		crossBases:  ev.Scale(1, 3),
 	}
 	only := os.Getenv("C02_ONLY")
 	var idx, ran, targets, auxTargets int
@@ -372,6 +376,48 @@ func TestC02_linesweep(t *testing.T) {
 		if stopped {
 			break
 		}
+		// lines of the extractor's other fixtures put into this one: directives that refer to
+		// neighbour files (includes, parents, workspaces) meet the neighbours of another
+		// fixture, section headers and keys meet documents that lack them
+		if lines := crossLines(e, bud.crossLines); len(lines) > 0 {
+			bases := 0
+			for _, f := range e.Fixtures {
+				if len(f.Paths) == 0 || bases >= bud.crossBases {
+					continue
+				}
+				b, err := readBase(f.Rel)
+				if err != nil || !textual(b) || len(b) > 64<<10 {
+					continue
+				}
+				bases++
+				have := map[string]bool{}
+				for _, l := range strings.Split(string(b), "\n") {
+					have[strings.TrimRight(l, "\r")] = true
+				}
+				nl := len(lineSpans(b))
+				for _, l := range lines {
+					if have[l] {
+						continue
+					}
+					for _, at := range []int{0, nl} {
+						c := c02Case{Leg: "linesweep", Extractor: e.Name, Path: f.Paths[0], Base: f.Rel,
+							Muts: []Mut{{Op: "insline", A: at, S: l}}}
+						if !run(c, "linesweep_insline") {
+							break
+						}
+					}
+					if stopped {
+						break
+					}
+				}
+				if stopped {
+					break
+				}
+			}
+		}
+		if stopped {
+			break
+		}
 	}
 	if stopped {
 		col.SetExtra("linesweep", fmt.Sprintf("stopped at the violation cap after %d cases", ran))
@@ -379,6 +425,61 @@ func TestC02_linesweep(t *testing.T) {
 		col.SetExtra("linesweep", fmt.Sprintf("%d cases over %d text fixtures / archive metadata members / ELF fixtures and %d neighbour files (budget per target: %d lines, %d cut-off offsets, %d scalars)", ran, targets, auxTargets, bud.lines, bud.truncs, bud.scalars))
 	}
 	completed = true
+}
+
+// crossLines collects up to limit distinct lines from the text fixtures of an extractor,
+// taking them fixture by fixture in turn: lines that start with punctuation other than a
+// comment mark first (directives, options, section headers, brackets), then lines that
+// start with a letter or digit, comments last.
+func crossLines(e *extInfo, limit int) []string {
+	var tiers [3][][]string
+	for _, f := range e.Fixtures {
+		b, err := readBase(f.Rel)
+		if err != nil || !textual(b) {
+			continue
+		}
+		var per [3][]string
+		for _, l := range strings.Split(string(b), "\n") {
+			l = strings.TrimRight(l, "\r")
+			t := strings.TrimSpace(l)
+			if t == "" || len(l) > 200 {
+				continue
+			}
+			k := 1
+			switch c := t[0]; {
+			case c == '#' || c == ';' || strings.HasPrefix(t, "//") || strings.HasPrefix(t, "/*") || strings.HasPrefix(t, "<!--") || c == '*':
+				k = 2
+			case !(c >= '0' && c <= '9' || c >= 'a' && c <= 'z' || c >= 'A' && c <= 'Z' || c == '"' || c >= 0x80):
+				k = 0
+			}
+			if len(per[k]) < limit {
+				per[k] = append(per[k], l)
+			}
+		}
+		for k := range per {
+			tiers[k] = append(tiers[k], per[k])
+		}
+	}
+	seen := map[string]bool{}
+	var out []string
+	for _, tier := range tiers {
+		for round := 0; len(out) < limit; round++ {
+			any := false
+			for _, ls := range tier {
+				if round < len(ls) {
+					any = true
+					if !seen[ls[round]] && len(out) < limit {
+						seen[ls[round]] = true
+						out = append(out, ls[round])
+					}
+				}
+			}
+			if !any {
+				break
+			}
+		}
+	}
+	return out
 }
 
 // caseVariants returns other spellings of a path: the base name in upper case, with its first
